@@ -192,6 +192,14 @@ def hashed_names(repo: Repo, R):
     dflt = au.tail_default(fe.node.body)
     ok = bool(dflt) and isinstance(dflt[-1], ast.Return) and ast.unparse(dflt[-1].value) == "pydantic_json_encoder(obj)"
     mods = any(ast.unparse(r.value) == "module_qualname(obj)" and shared.cond_match(fe.node, r, "isinstance(obj, (Module, ExternalModule, Generator))", True, use_prov=False) for r in shared.returns_of(fe.node))
+    sets_ok = False
+    for n_, classes, arm in au.dispatch_arms(fe.node, fe.node.args.args[0].arg):
+        ks = {ast.unparse(c) for c in classes}
+        if {"set", "frozenset"} <= ks:
+            rets_ = [x for b_ in arm for x in ast.walk(b_) if isinstance(x, ast.Return)]
+            sets_ok = bool(rets_) and all(isinstance(r_.value, ast.Call) and ast.unparse(r_.value.func) == "sorted" for r_ in rets_)
+    R.check(sets_ok, rule, key_of(fe, "sets-ordered"), fe.site, f"set-valued parameters are encoded in a sorted order (not in iteration order): {sets_ok}",
+            why="the default encoder lists a set in hash order: the md5 name of a module generated from a set-valued parameter changes with PYTHONHASHSEED")
     R.check(ok and mods, rule, key_of(fe, "encoder"), fe.site, f"the encoder names Module/ExternalModule/Generator values by their qualified name ({mods}) and hands everything else to the (raising) default encoder ({ok})", why="module-valued parameters are named by their address-bearing repr")
 
 
